@@ -163,6 +163,8 @@ pub(crate) fn write_buffered(
 
     buffer_with(|tl_buf| match tl_buf.try_borrow_mut() {
         Ok(mut buffer) => {
+            // (a panic in a Display implementation leaves an unfinished line behind)
+            buffer.clear();
             (format_function)(&mut *buffer, now, record)
                 .unwrap_or_else(|e| eprint_err(ErrorCode::Format, "formatting failed", &e));
             buffer
